@@ -547,12 +547,21 @@ namespace adept {
 	  rhs.set_location(i, loc);
 	  // Innermost loop
 	  for ( ; i[last] < istartvec; ++i[last]) {
+#ifdef RJHOGAN_ADEPT_2_VERIF
+	    ++verif::simd_log().head;
+#endif
 	    f.accumulate(total, rhs.next_value_contiguous(loc));
 	  }
 	  for ( ; i[last] < iendvec; i[last] += Packet<Type>::size) {
+#ifdef RJHOGAN_ADEPT_2_VERIF
+	    ++verif::simd_log().packets;
+#endif
 	    f.accumulate(ptotal, rhs.next_packet(loc));
 	  }
 	  for ( ; i[last] < dims[last]; ++i[last]) {
+#ifdef RJHOGAN_ADEPT_2_VERIF
+	    ++verif::simd_log().tail;
+#endif
 	    f.accumulate(total, rhs.next_value_contiguous(loc));
 	  }
 	  my_rank = E::rank-1;
